@@ -39,7 +39,7 @@ func runAnswered(c *mon.Case, sp spec) {
 		return
 	}
 	carrier := txs[0].Pipe
-	carrier.Inject(hx.ReplyWire(txs[0].ID, 1))
+	carrier.Inject(replyWire(txs[0].ID, 1, sp.Empty))
 	if !rig.Drained(carrier) {
 		return
 	}
@@ -66,7 +66,7 @@ func runAnswered(c *mon.Case, sp spec) {
 	if !c.AwaitOrViolate("req/recv-stuck-at-answer", "Recv of a reply that arrived before the carrying connection closed", rk.Done, mon.AwaitOpts{MaxTimer: R % time.Hour}) {
 		return
 	}
-	if v, err, _ := rk.Result(); err != nil || !bytes.Equal(v.([]byte), hx.ReplyWire(txs[0].ID, 1)[4:]) {
+	if v, err, _ := rk.Result(); err != nil || !bytes.Equal(v.([]byte), replyWire(txs[0].ID, 1, sp.Empty)[4:]) {
 		c.Violate("req/answered-recv-failed", "the reply to request %08x had arrived when its connection closed, but Recv returned (%q, %v) (RetryTime %v)", txs[0].ID, v, err, R)
 		return
 	}
